@@ -167,3 +167,5 @@ extend("C05", "gradients w.r.t. the samples of a data-fed stimulus, several of t
 extend("C17", "a float32/float16 call on an instance followed by float64 (the instance must behave like a fresh one).")
 extend("C18", "coordinate edits that recompute the centres in .nodes, applied to copy and original and compared.")
 extend("C20", "column-major and transposed-view connectivity matrices.")
+extend("C12", "a compartment with two user channels coupled through a declared shared state, inserted in non-alphabetical order (channel update order must survive assembly).")
+extend("C14", "channels inserted into further compartments of an already initialised module, then init_states again.")
